@@ -4,8 +4,8 @@ stdin: JSON list of jobs
   {"id", "vars": [variant...], "nullable": bool, "disc": {"mode": "none"|"complete"|"partial", "prop": str,
    "mapping": [[tag, variant index (1-based)], ...]}, "cases": [{"cid", "payload": tagged tree}],
    "positions": subset of ["top", "field", "list", "opt", "map", "rows"]}
-variant == {"k": "obj", "f": [ma, mb, mc]} (m in abs/opt/req/rnul, fields a, b, c, all string typed; rnul = required
-           and nullable)   optional job key "history": {"vars": [...]} -> see run_history_job (adds "fresh" to the result)
+variant == {"k": "obj", "f": [ma, mb, mc]} (m in abs/opt/req/rnul/reqdef/optdef/reqenum/reqdate, fields a, b, c, string typed;
+           rnul = required and nullable, *def = declared default "d<key>", reqenum = enum ["v<key>"], reqdate = format date)   optional job key "history": {"vars": [...]} -> see run_history_job (adds "fresh" to the result)
          | {"k": "str"|"int"|"float"|"bool"} | {"k": "list"|"map", "of": "str"|"int"} | {"k": "anymap"}
 stdout: one JSON line per job: {"id", "res": [{"cid", "pos", "out": "ok"|"err", "chosen": int (1-based variant index,
   0 = none of the union's variants could be identified), "ckind": kind of the produced value, "reenc": tagged tree,
@@ -20,6 +20,8 @@ metadata dataclass carrying `property_name`, `_mapping_data` and a lazy `get_map
 from __future__ import annotations
 
 import dataclasses
+import datetime
+import enum
 import json
 import re
 import sys
@@ -57,7 +59,16 @@ def unstructure_to_dict(x: Any) -> Any:
 
 
 FIELDS = ("a", "b", "c")
-LETTER = {"abs": "X", "opt": "O", "req": "R", "rnul": "N"}
+LETTER = {"abs": "X", "opt": "O", "req": "R", "rnul": "N", "reqdef": "D", "optdef": "F", "reqenum": "E", "reqdate": "T"}
+_ENUMS: dict[str, type] = {}
+
+
+def enum_for(fld: str) -> type:
+    """inline `enum: ["v<fld>"]` -> the str-Enum class the generator emits for it"""
+    if fld not in _ENUMS:
+        _ENUMS[fld] = enum.unique(enum.Enum("Enum" + fld.upper(), {("V" + fld).upper(): "v" + fld}, type=str))
+    return _ENUMS[fld]
+
 PRIMS = {"str": str, "int": int, "float": float, "bool": bool}
 
 _CLASSES: dict[tuple, type] = {}
@@ -83,6 +94,20 @@ def obj_class(f: list[str], disc_prop: str | None, positional: int = 0) -> type:
             names.append(fld)
         elif m == "rnul":  # required and nullable: `a: str | None` without a default
             req.append((fld, str | None))
+            names.append(fld)
+        # annotated properties, in the shape the generator emits on the unchanged tree (probed): a declared default on a
+        # REQUIRED property is not a field default, on an optional one it is; inline enum -> Enum class; format date -> date
+        elif m == "reqdef":
+            req.append((fld, str))
+            names.append(fld)
+        elif m == "optdef":
+            opt.append((fld, str | None, dataclasses.field(default="d" + fld)))
+            names.append(fld)
+        elif m == "reqenum":
+            req.append((fld, enum_for(fld)))
+            names.append(fld)
+        elif m == "reqdate":
+            req.append((fld, datetime.date))
             names.append(fld)
         elif m == "opt":
             opt.append((fld, str | None, dataclasses.field(default=None)))
@@ -137,6 +162,10 @@ def build_union(job: dict, positional: bool = False) -> tuple[Any, list[Any]]:
 def to_tree(x: Any) -> dict:
     if x is None:
         return {"t": "null", "v": 0}
+    if isinstance(x, enum.Enum):
+        return to_tree(x.value)
+    if isinstance(x, datetime.date):
+        return {"t": "s", "v": x.isoformat()}
     if isinstance(x, bool):
         return {"t": "b", "v": x}
     if isinstance(x, int):
